@@ -108,6 +108,14 @@ def generate(rng, tier, ctx):
         b['plain'] = bytes.fromhex(t[1]) if t[0] == '1' else None
 
     # ------------------------------------------------------------------ encrypt: more keys / failure paths
+    # R.x in [n, p): the nonce point R = k*Y is crafted to have an abscissa >= n (Y = k^-1 * P for a curve point P with x = n + j,
+    # constant nonce k); the specification reduces R.x mod n (here to j != 0) and produces a verifying adaptor signature
+    jx = 0
+    for _ in range(2 if quick else 6):
+        jx += 1
+        while lift_x(N + jx, 0) is None: jx += 1
+        k = rnd_sk(); Pp = lift_x(N + jx, rng.randint(0, 1))
+        cases.append((enc_line(rnd_sk(), pmul(pow(k, -1, N), Pp), rng.rand256(), 'p%s:%s' % (h32(k), h32(rnd_sk())), None), ('encrypt', 'Rx>=n')))
     Yr = pmul(rnd_sk(), G)
     for _ in range(6 if quick else 40):
         sk = rng.scalar(0.7); msg = rng.scalar(0.5)
